@@ -84,7 +84,8 @@ def main():
         open(os.path.join(dest, "demo_with_change.log"), "w").write(log)
         # checks against the changed tree
         for f in demo_files:
-            os.remove(os.path.join(wt, f))
+            if os.path.exists(os.path.join(wt, f)):
+                os.remove(os.path.join(wt, f))
         results = {}
         for cid in checks:
             env = dict(ENV, VERIF_REPO=wt, VERIF_TIER=tier)
@@ -93,7 +94,7 @@ def main():
             lines = [l for l in out.splitlines() if l.startswith(("VIOLATION", "  assertion", "INCONCLUSIVE", "KNOWN-FINDING", "OK ")) or l.strip().startswith("violation ")]
             results[cid] = dict(tier=tier, exit=rc, wall_s=round(time.time() - t0, 1), lines=[l[:300] for l in lines[:12]])
         meta["checks"] = results
-        meta["detected_by"] = [c for c, r in results.items() if r["exit"] == 1]
+        meta["detected_by"] = [c for c, r in results.items() if r["exit"] == 1 and any(l.startswith("VIOLATION property=") for l in r["lines"])]
         # demo without the change
         for rel in demo_files:
             shutil.copy(os.path.join(dest, "demo", rel), os.path.join(wt, rel))
